@@ -72,6 +72,20 @@ pub fn line_items(thorough: bool) -> Vec<Item> {
         }
         v.push(("scale:two-contracts-around-78KB-of-comment".to_string(), text, offs));
     }
+    // (8) chains of 300 (70 in the quick tier): else-if branches, terms of a sum, nested calls, nested blocks (a counter of the
+    //     nesting depth that is narrower than the depth)
+    for n in if thorough { vec![70usize, 254, 255, 256, 300] } else { vec![70, 300] } {
+        let mut t = toks("pragma solidity 0.8.19 ; contract Deep { function f ( uint256 a , bool b , address u ) public returns ( uint256 ) {");
+        for k in 0..n {
+            t.extend(toks(&format!("{} ( a >= {} ) {{ a = a * 2 ; }}", if k == 0 { "if" } else { "else if" }, k + 1)));
+        }
+        t.extend(toks("uint256 s = a * 2"));
+        for _ in 0..n {
+            t.extend(toks("+ a * 2"));
+        }
+        t.extend(toks("; return s ; } }"));
+        v.push(item(&format!("scale:else-if-chain-and-sum-of-{}", n), &t));
+    }
     // (6) characters that look like line ends but are not line feeds, inside a comment above the contract:
     //     NEL, LINE SEPARATOR, PARAGRAPH SEPARATOR, vertical tab, form feed, lone CR
     v.push(below("/* \u{85} \u{2028} \u{2029} \u{b} \u{c} \r */\n", &small, "below-a-comment-with-NEL-LS-PS-VT-FF-CR"));
